@@ -151,6 +151,7 @@ func isAuthorizedResponder(responder *x509.Certificate, issuer *x509.Certificate
 func (c *OCSPRevocationChecker) Provision(ocspConfig *config.OCSPConfig, logger *zap.Logger) error {
 	c.ocspConfig = ocspConfig
 	c.logger = logger
+	c.cache = cache2go.Cache("ocsp_client")
 	return nil
 }
 
@@ -211,7 +212,6 @@ func (c *OCSPRevocationChecker) filterHTTPOCSPServers(ocspServerList []string) [
 }
 
 func (c *OCSPRevocationChecker) tryGetResponseFromCache(cacheKey string) (*core.RevocationStatus, error) {
-	c.cache = cache2go.Cache("ocsp_client")
 
 	// Let's retrieve the item from the cache.
 	res, err := c.cache.Value(cacheKey)
